@@ -78,7 +78,7 @@ enum Via {
     Let,
 }
 
-fn run_batch(out: &mut CaseOut, w: usize, vals: &[i64], via: &[Via], zx_row: bool, layout_stream: &[u32], fail_at: Option<usize>) {
+fn run_batch(out: &mut CaseOut, w: usize, vals: &[i64], via: &[Via], zx_row: bool, layout_stream: &[u32], fail_at: Option<usize>, with_bits: bool) {
     let w2 = if w > 32 { w - 29 } else { w + 29 };
     let sigs = vec![
         Sig { name: "I".into(), bits: w, kind: Kind::In(InVal::Val(0)) },
@@ -90,7 +90,17 @@ fn run_batch(out: &mut CaseOut, w: usize, vals: &[i64], via: &[Via], zx_row: boo
         Sig { name: "S_out".into(), bits: w2, kind: Kind::In(InVal::Val(0)) },
     ];
     // header: input column, expected column, bidirectional in + out, virtual column, shared column
-    let header: Vec<String> = ["I", "O", "B", "B_out", "V", "S_out"].iter().map(|s| s.to_string()).collect();
+    let mut header: Vec<String> = ["I", "O", "B", "B_out", "V", "S_out"].iter().map(|s| s.to_string()).collect();
+    let mut sigs = sigs;
+    if with_bits {
+        // two one-bit inputs in front, fed by one `bits(2, 2)` entry: the entries that follow sit
+        // one place further left in the row than their columns do in the header
+        out.class("bits-entry-before-the-values");
+        for (k, n) in ["K1", "K0"].iter().enumerate() {
+            sigs.insert(k, Sig { name: n.to_string(), bits: 1, kind: Kind::In(InVal::Val(0)) });
+            header.insert(k, n.to_string());
+        }
+    }
     let mut stmts = vec![Stmt::Declare("V".into(), Expr::var("O"))];
     let mut row_vals: Vec<Option<i64>> = vec![];
     let mut id = 0;
@@ -114,15 +124,20 @@ fn run_batch(out: &mut CaseOut, w: usize, vals: &[i64], via: &[Via], zx_row: boo
                 (0..6).map(|_| Entry::Paren(Expr::var("v"))).collect()
             }
         };
+        let mut es = es;
+        if with_bits {
+            es.insert(0, Entry::Bits(2, Expr::lit(2)));
+        }
         stmts.push(Stmt::Row(id, es));
         id += 1;
         row_vals.push(Some(*v));
     }
     if zx_row {
-        stmts.push(Stmt::Row(
-            id,
-            vec![Entry::Z(true), Entry::X(false), Entry::Z(false), Entry::Z(true), Entry::X(true), Entry::Z(true)],
-        ));
+        let mut es = vec![Entry::Z(true), Entry::X(false), Entry::Z(false), Entry::Z(true), Entry::X(true), Entry::Z(true)];
+        if with_bits {
+            es.insert(0, Entry::Bits(2, Expr::lit(2)));
+        }
+        stmts.push(Stmt::Row(id, es));
         row_vals.push(None);
     }
     let prog = Program { header, stmts };
@@ -170,6 +185,10 @@ fn run_batch(out: &mut CaseOut, w: usize, vals: &[i64], via: &[Via], zx_row: boo
         let sent = &real.log[k + 1].inputs;
         let get_in = |v: &Vec<(String, InVal, bool)>, n: &str| v.iter().find(|e| e.0 == n).map(|e| e.1);
         let get_exp = |n: &str| row.outputs.iter().find(|o| o.name == n).map(|o| o.expected);
+        if with_bits && (get_in(sent, "K1") != Some(InVal::Val(1)) || get_in(sent, "K0") != Some(InVal::Val(0))) {
+            out.fail("c07:bits-entry", format!("bits(2, 2) must drive K1 = 1, K0 = 0; the driver received {:?} {:?}", get_in(sent, "K1"), get_in(sent, "K0")));
+            return;
+        }
         match rv {
             Some(v) => {
                 let want = reduce(*v, w);
@@ -247,7 +266,7 @@ impl Property for C07 {
         "C07"
     }
     fn rule(&self) -> &'static str {
-        "profile `width`: (a) exhaustive sweep of every width 1..=64 x a 40-value boundary pool (0, +-1, MIN, MAX, 2^w-1, 2^w, 2^w+1, -2^w, 2^(w-1), ...) delivered directly / through arithmetic / through let, 8 values per program, on an input column, an output's expected column, a bidirectional signal's input and `_out` column and a virtual signal's column, plus a `Z x z Z X` row; (b) random (width, 64-bit value) pairs, values returning to the one two rows earlier (v, w, v), in a third of the programs the driver fails on one row's call and the caller goes on. Oracle: value & (2^w-1) in u64 (w=64 unchanged) against the input as received by the driver, row.inputs and the expected values; virtual column keeps 64 bits. Non-trivial: w >= 33 or the value has bits above w; distinct by (width, values, path)."
+        "profile `width`: (a) exhaustive sweep of every width 1..=64 x a 40-value boundary pool (0, +-1, MIN, MAX, 2^w-1, 2^w, 2^w+1, -2^w, 2^(w-1), ...) delivered directly / through arithmetic / through let, 8 values per program, on an input column, an output's expected column, a bidirectional signal's input and `_out` column and a virtual signal's column, plus a `Z x z Z X` row, in every second batch behind a `bits(2, 2)` entry feeding two extra one-bit inputs (row entries and header columns then no longer line up one to one); (b) random (width, 64-bit value) pairs, values returning to the one two rows earlier (v, w, v), in a third of the programs the driver fails on one row's call and the caller goes on. Oracle: value & (2^w-1) in u64 (w=64 unchanged) against the input as received by the driver, row.inputs and the expected values; virtual column keeps 64 bits. Non-trivial: w >= 33 or the value has bits above w; distinct by (width, values, path)."
     }
     fn cases(&self, tier: Tier) -> u64 {
         match tier {
@@ -270,12 +289,13 @@ impl Property for C07 {
         v
     }
     fn required_classes(&self) -> Vec<&'static str> {
-        vec!["width=64", "width=63", "width=1", "width>=33", "bits-above-width", "negative", "row-after-driver-failure"]
+        vec!["width=64", "width=63", "width=1", "width>=33", "bits-above-width", "negative", "row-after-driver-failure", "bits-entry-before-the-values"]
     }
     fn run(&self, s: &Streams) -> CaseOut {
         let mut out = CaseOut::new();
         let mut ch = Ch::new(&s[0]);
         let mut fail_at = None;
+        let with_bits;
         let (w, vals, via, zx) = if s[0].first() == Some(&SWEEP_MAGIC) {
             ch.raw();
             let w = (ch.raw() as usize).clamp(1, 64);
@@ -283,6 +303,7 @@ impl Property for C07 {
             let via = [Via::Direct, Via::Arith, Via::Let][ch.raw() as usize % 3];
             let p = pool(w);
             out.class("sweep");
+            with_bits = b % 2 == 1;
             (w, p[b * BATCH..(b + 1) * BATCH].to_vec(), vec![via], b == 0)
         } else {
             let w = match ch.weighted(&[6, 2, 1, 1, 1]) {
@@ -322,6 +343,7 @@ impl Property for C07 {
             if ch.chance(1, 3) {
                 fail_at = Some(1 + ch.upto(n));
             }
+            with_bits = ch.chance(1, 3);
             (w, vals, via, zx)
         };
         out.class_if(w == 64, "width=64");
@@ -332,7 +354,7 @@ impl Property for C07 {
         out.class_if(above, "bits-above-width");
         out.class_if(vals.iter().any(|v| *v < 0), "negative");
         out.nontrivial = w >= 33 || above;
-        run_batch(&mut out, w, &vals, &via, zx, &s[1], fail_at);
+        run_batch(&mut out, w, &vals, &via, zx, &s[1], fail_at, with_bits);
         out
     }
 }
